@@ -15,14 +15,16 @@ from egverif.common import ddmin
 
 RULE = (
     "cases = histories of 20-80 calls (construct with arbitrary positional/keyword arguments, "
-    "clear_true_singleton(cls), clear_true_singleton()) over 7 classes: two flat classes, a 3-level subclass chain, a "
-    "class whose metaclass derives from TrueSingleton, and a Vertex subclass.  A lock-step model {class -> instance} "
+    "clear_true_singleton(cls), clear_true_singleton()) over 12 classes: two flat classes, a 3-level subclass chain, a "
+    "class whose metaclass derives from TrueSingleton, a Vertex subclass, classes with falsy instances, and classes "
+    "whose __init__ constructs another singleton / clears all singletons / clears its own class.  A lock-step model {class -> instance} "
     "with per-class __init__ logs judges every call; after every call every class's live instance is re-read.  "
     "Non-trivial = history with >=1 repeated construction, >=1 clear and >=2 classes; distinct = distinct op sequences."
 )
 
 INIT_LOG = []
-CLASS_NAMES = ["FlatA", "FlatB", "Top", "Mid", "Leaf", "Derived", "SVert", "EmptyReg", "NoBool"]
+CLASS_NAMES = ["FlatA", "FlatB", "Top", "Mid", "Leaf", "Derived", "SVert", "EmptyReg", "NoBool", "Nester", "Resetter",
+               "SelfResetter"]
 ARGS = [(), (1,), (2, 3), ("x",), (None,), ([1, 2],), (0,), (False,)]
 KWARGS = [{}, {"a": 1}, {"b": [1]}, {"a": None, "b": 2},
           # keyword names an implementation might use for its own parameters
@@ -72,9 +74,31 @@ def make_classes():
             INIT_LOG.append((type(self).__name__, id(self), args, dict(kwargs)))
             super().__init__()
 
+    class Nester(Base, metaclass=singleton.TrueSingleton):
+        """A singleton whose __init__ obtains another singleton (a service locating its registry)."""
+
+        def __init__(self, *args, **kwargs):
+            self.inner = FlatA()
+            super().__init__(*args, **kwargs)
+
+    class Resetter(Base, metaclass=singleton.TrueSingleton):
+        """A singleton whose __init__ resets all singletons (an application context starting from a clean slate)."""
+
+        def __init__(self, *args, **kwargs):
+            singleton.clear_true_singleton()
+            super().__init__(*args, **kwargs)
+
+    class SelfResetter(Base, metaclass=singleton.TrueSingleton):
+        """__init__ clears its own class first (drops a possible stale instance before registering itself)."""
+
+        def __init__(self, *args, **kwargs):
+            singleton.clear_true_singleton(type(self))
+            super().__init__(*args, **kwargs)
+
     # start from a clean table whatever ran before in this process
     singleton.clear_true_singleton()
-    return {c.__name__: c for c in (FlatA, FlatB, Top, Mid, Leaf, Derived, SVert, EmptyReg, NoBool)}
+    return {c.__name__: c for c in (FlatA, FlatB, Top, Mid, Leaf, Derived, SVert, EmptyReg, NoBool, Nester, Resetter,
+                                    SelfResetter)}
 
 
 class _Ref:
@@ -138,9 +162,29 @@ def run_history(ops, keep_refs=True):
                 if type(obj) is not cls:
                     viol("construct:wrong_type", f"{cname}() returned a {type(obj).__name__}", k)
                     break
-                if ninit != 1 or INIT_LOG[-1][2] != args or INIT_LOG[-1][3] != kwargs:
+                want_init = 1
+                if cname == "Nester" and "FlatA" not in model:
+                    want_init = 2  # the nested first construction of FlatA
+                if ninit != want_init or INIT_LOG[-1][2] != args or INIT_LOG[-1][3] != kwargs:
                     viol("construct:init_count_or_args", f"__init__ ran {ninit}x for a fresh period (args {args} {kwargs})", k)
                     break
+                if cname == "Resetter":
+                    # the reset happened while this construction was under way: everything else is cleared and
+                    # the object that was then returned is the live one
+                    model.clear()
+                if cname == "Nester":
+                    touched.add("FlatA")
+                    if "FlatA" in model:
+                        if obj.inner is not model["FlatA"]:
+                            viol("construct:second_live_instance:from_inside_init",
+                                 "FlatA has a live instance but FlatA() inside Nester.__init__ returned another object", k)
+                            break
+                    else:
+                        if type(obj.inner) is not classes["FlatA"] or any(obj.inner is o for o in created):
+                            viol("construct:wrong_type:from_inside_init", "FlatA() inside Nester.__init__ returned a foreign/old object", k)
+                            break
+                        model["FlatA"] = obj.inner
+                        created.append(obj.inner)
                 model[cname] = obj
                 created.append(obj)
         elif kind == "clear":
@@ -179,6 +223,7 @@ def run_history_norefs(ops):
     would) and collects garbage: the singleton must stay alive on its own, __init__ must not run again.
     """
     classes = make_classes()
+    ops = [o for o in ops if o.get("c") not in ("Nester", "Resetter", "SelfResetter")]
     model = {}  # cname -> _Ref
     found = []
     repeats = clears = 0
@@ -243,7 +288,9 @@ def prelude():
     N = lambda c, a=0, k=0: {"op": "new", "c": c, "a": a, "k": k}  # noqa
     C = lambda c: {"op": "clear", "c": c}  # noqa
     ALL = {"op": "clear_all"}
-    for a, b in (("FlatA", "FlatB"), ("Top", "Mid"), ("Mid", "Top"), ("Leaf", "Top"), ("Derived", "FlatA"), ("SVert", "Mid"), ("EmptyReg", "FlatA"), ("NoBool", "EmptyReg")):
+    for a, b in (("FlatA", "FlatB"), ("Top", "Mid"), ("Mid", "Top"), ("Leaf", "Top"), ("Derived", "FlatA"), ("SVert", "Mid"), ("EmptyReg", "FlatA"), ("NoBool", "EmptyReg"),
+                 ("Nester", "FlatA"), ("FlatA", "Nester"), ("Resetter", "FlatA"), ("FlatB", "Resetter"), ("SelfResetter", "Top"),
+                 ("Nester", "Resetter")):
         out.append([N(a, 1), N(b, 2, 1), N(a, 3), C(a), N(a, 2), N(b), C(b), C(b), N(b, 1), ALL, N(a), N(b), C(a), ALL, ALL,
                     N(b, 4), N(a, 5, 2), C(b), N(a), N(b)])
         out.append([C(a), N(a, 7), ALL, C(a), N(a, 6), N(a, 1)])
@@ -254,7 +301,8 @@ def prelude():
 def floors(ctx):
     q = ctx.tier == "quick"
     return {"evaluations": 5000 if q else 50000, "histories": 200 if q else 2000, "repeat_constructions": 1000,
-            "clears": 500, "histories_with_subclass_chain": 50, "histories_with_falsy_instances": 50, "histories_without_strong_refs": 100}
+            "clears": 500, "histories_with_subclass_chain": 50, "histories_with_falsy_instances": 50, "histories_without_strong_refs": 100,
+            "histories_with_clear_or_construction_inside_init": 50}
 
 
 def judge(ctx, ops, keep_refs=True):
@@ -269,6 +317,8 @@ def judge(ctx, ops, keep_refs=True):
         ctx.count("histories_with_subclass_chain")
     if {"EmptyReg", "NoBool"} & {o.get("c") for o in ops}:
         ctx.count("histories_with_falsy_instances")
+    if keep_refs and {"Nester", "Resetter", "SelfResetter"} & {o.get("c") for o in ops if o["op"] == "new"}:
+        ctx.count("histories_with_clear_or_construction_inside_init")
     if repeats and clears and ntouched >= 2:
         ctx.nontrivial(ops)
     if found and not ctx.should_shrink(found[0][0]):
@@ -318,7 +368,7 @@ def run(ctx):
         if n in (1, 70) and ctx.shard == 0:
             ctx.sample(ops[:20] + ["..."])
     singleton.clear_true_singleton()
-    ctx.assumptions += ["no re-entrant construction from __init__; single-threaded",
+    ctx.assumptions += ["an __init__ may construct another singleton class or call clear_true_singleton, but does not construct its own class; single-threaded",
                         "liveness is observed by constructing again with no arguments (must return the same object without running __init__)"]
 
 
